@@ -298,7 +298,7 @@ def run(prop, argv, meta_focus):
     model = chk.extract("bq", "Extract_bq.v", "bq_driver.ml", explorer=True)
     chk.log("model extracted")
     impl = chk.build_cpp("c01_bounded_queue", [os.path.join(VERIF, "harness/conc/c01_bounded_queue.cpp"),
-                                               os.path.join(VERIF, "harness/shim/dsched.cpp")], ldflags=["-ldl"])
+                                               os.path.join(VERIF, "harness/shim/dsched.cpp")], flags=["-fno-access-control"], ldflags=["-ldl"])
     chk.log("drivers built")
     rng = chk.rng
     progs = []   # (pid, k, threads, small, nostuck)
@@ -342,6 +342,10 @@ def run(prop, argv, meta_focus):
             # every third schedule also lets futex_wait return without a wake (EINTR / spurious 0): the waiter
             # must re-check the version and wait again - the model admits no new outcome for it
             spur = 1 if (si % 3 == 2 and strat != 1) else 0
+            # every fourth schedule starts the queue just before / at / after the 16-bit wrap of the slot versions
+            # (as if 32767, 32768 or 65535 turns of the ring had passed): outcomes must not depend on the turn
+            if si % 4 == 1:
+                spur |= ([1, 2, 3][(si // 4) % 3]) << 1
             lines.append("%s %d %d %d %d %s" % (cid, seed, strat, k, spur, model_prog(th)))
             meta[cid] = (pid, k, th, small, nostuck, seed, strat)
     chk.log("%d programs x %d schedules" % (len(progs), len(scheds)))
